@@ -375,16 +375,23 @@ func Main(props ...*Prop) {
 // GCSettle forces collection rounds and waits for the cleanup queue to drain (sentinel cleanups):
 // models "the previous process is gone, none of its table cleanups is still pending".
 func GCSettle() {
-	for round := 0; round < 3; round++ {
-		done := make(chan struct{})
-		obj := new([16]byte)
-		runtime.AddCleanup(obj, func(ch chan struct{}) { close(ch) }, done)
-		obj = nil
-		runtime.GC()
-		select {
-		case <-done:
-		case <-time.After(2 * time.Second):
+	for round := 0; round < 4; round++ {
+		// several sentinels per round: cleanups are queued per P, a single sentinel could overtake older entries
+		var dones []chan struct{}
+		for i := 0; i < 8; i++ {
+			done := make(chan struct{})
+			obj := new([16]byte)
+			runtime.AddCleanup(obj, func(ch chan struct{}) { close(ch) }, done)
+			obj = nil
+			dones = append(dones, done)
 		}
-		time.Sleep(200 * time.Microsecond)
+		runtime.GC()
+		for _, done := range dones {
+			select {
+			case <-done:
+			case <-time.After(2 * time.Second):
+			}
+		}
+		time.Sleep(300 * time.Microsecond)
 	}
 }
